@@ -326,6 +326,10 @@ impl RBig {
         }
 
         let (trunc, fract) = self.clone().split_at_point();
+        if limit.is_one() && self.is_int() {
+            // `fract + limit^-2` is 1, which `farey_neighbors` does not accept
+            return trunc + Self::ONE;
+        }
         let up = if self.denominator() <= limit {
             // If the denominator of the number is already small enough, increase the number a little
             // bit before finding the farey neighbors. Note that the distance between two adjacent
@@ -362,6 +366,10 @@ impl RBig {
 
         // similar to next_up()
         let (trunc, fract) = self.clone().split_at_point();
+        if limit.is_one() && self.is_int() {
+            // `fract - limit^-2` is -1, which `farey_neighbors` does not accept
+            return trunc - Self::ONE;
+        }
         let down = if self.denominator() <= limit {
             let target = fract
                 - Self(Repr {
